@@ -99,6 +99,9 @@ func (ex *Exec) discoverLoop(st *State, li *loopInfo) *writeSet {
 			}
 			saved.ghosts[g] = true
 		}
+		for p := range ws.prefixes {
+			saved.addPrefix(p)
+		}
 	}
 	return ws
 }
@@ -187,6 +190,9 @@ func (ex *Exec) loopEntry(st *State, li *loopInfo) {
 			}
 			ex.discover.ghosts[g] = true
 		}
+		for p := range li.ws.prefixes {
+			ex.discover.addPrefix(p)
+		}
 	}
 	if li.spec != nil {
 		for _, g := range li.spec.Ghosts {
@@ -222,6 +228,18 @@ func (ex *Exec) loopEntry(st *State, li *loopInfo) {
 		st.havocAll()
 		ex.note("a loop calls a function without contract: whole heap havocked at the loop head")
 	} else {
+		// whole arrays havocked through callee `assigns key(...)`: every materialised key under the prefix is part of the
+		// write set, and keys not materialised yet must not resolve to their pre-loop constants later
+		for _, p := range sortedStrings(li.ws.prefixes) {
+			for k, h := range st.heaps {
+				if strings.HasPrefix(k, p) {
+					if _, known := li.ws.keys[k]; !known {
+						li.ws.keys[k] = h.Sort
+					}
+				}
+			}
+			st.havockedPrefixes = append(st.havockedPrefixes, p)
+		}
 		keys := make([]string, 0, len(li.ws.keys))
 		for k := range li.ws.keys {
 			keys = append(keys, k)
